@@ -129,6 +129,19 @@ def log_prob(s):
     return -0.5 * (jnp.sum(s["a"] ** 2) / 4.0 + jnp.sum((s["b"] - 1.0) ** 2) + jnp.sum(s["c"] ** 2) * 3.0)
 
 
+def log_prob_rough(region):
+    """The same target, but undefined (NaN) resp. impossible (-inf) for a < -0.2: proposals into that region are
+    rejected with reported acceptance 0, which is what the dual averaging has to be fed."""
+    import jax.numpy as jnp
+
+    def f(s):
+        base = log_prob(s)
+        if region == "nan":
+            return base + 0.0 * jnp.log(s["a"] + 0.2)
+        return jnp.where(s["a"] < -0.2, -jnp.inf, base)
+    return f
+
+
 def make_kernel(kind, cfg):
     import jax.numpy as jnp
     import liesel.goose as gs
@@ -162,7 +175,8 @@ def case_engine(case, res):
     b = gs.EngineBuilder(seed=case["engine_seed"], num_chains=case["chains"])
     b.show_progress = False
     b.store_kernel_states = True
-    b.set_model(gs.DictInterface(log_prob))
+    region = case.get("region", "none")
+    b.set_model(gs.DictInterface(log_prob if region == "none" else log_prob_rough(region)))
     b.set_initial_values({"a": jnp.asarray(0.3, jnp.float32), "b": jnp.asarray([0.1, 0.5], jnp.float32),
                           "c": jnp.asarray([0.2, -0.1, 0.4], jnp.float32)})
     ker = make_kernel(kind, cfg)
@@ -176,13 +190,19 @@ def case_engine(case, res):
     ks = r.kernel_states.unwrap().combine_all().unwrap()[0]
     ti = r.transition_infos.combine_all().unwrap()[ker.identifier]
     acc = np.asarray(ti.acceptance_prob, np.float64)      # [C, T-1]
+    if region != "none":
+        codes = np.asarray(ti.error_code)
+        res.ev(f"proposals_into_{region}_region", int(np.sum(codes != 0) if region == "nan" else np.sum(acc == 0.0)))
+        if np.any((codes != 0) & (acc != 0.0)):
+            res.violation("engine-recurrence", f"a transition with error code {np.unique(codes).tolist()} reports acceptance "
+                          f"probability {acc[codes != 0][:3].tolist()} (expected 0)", {"kernel": kind, "cfg": cfg, "schedule": spec})
     step = np.asarray(ks.step_size, np.float64)            # [C, T]
     err = np.asarray(ks.error_sum, np.float64)
     lavg = np.asarray(ks.log_avg_step_size, np.float64)
     mu = np.asarray(ks.mu, np.float64)
     imm = np.asarray(ks.inverse_mass_matrix, np.float64) if hasattr(ks, "inverse_mass_matrix") else None
     C = case["chains"]
-    w = {"kernel": kind, "cfg": cfg, "schedule": spec}
+    w = {"kernel": kind, "cfg": cfg, "schedule": spec, "target_region": region}
     tuned = kind != "mh_off"
     # epoch boundaries in global time: epoch e covers transitions t0..t0+d-1 -> snapshots t0..t0+d-1 (snapshot t = after transition t)
     t0 = 1
@@ -294,6 +314,7 @@ def gen_cases(tier, seed):
                "diag": bool(rng.random() < 0.6), "explicit_step": bool(rng.random() < 0.7)}
         cases.append({"kind": "engine", "idx": i, "seed": seed, "kernel": kind, "cfg": cfg, "spec": gen_spec(rng),
                       "chains": int(rng.integers(1, 3)), "engine_seed": int(rng.integers(2 ** 30)),
+                      "region": ["none", "nan", "inf"][(i // len(kinds)) % 3] if kind in ("rw", "mh_on", "mh_off") else "none",
                       "cost": 12 if kind in ("nuts", "hmc") else 5})
     return cases
 
